@@ -189,3 +189,10 @@ func vLRUHistory(nops int, maxCap int) {
 }
 
 func H_C09_hist3() { vLRUHistory(3, 2) }
+
+// thorough tier: longer histories and larger capacities for the inductive step
+func H_C09T_hist4()        { vLRUHistory(4, 3) }
+func H_C09T_hist5()        { vLRUHistory(5, 2) }
+func H_C09T_step_store6()  { vLRUStep(0, 6) }
+func H_C09T_step_load6()   { vLRUStep(1, 6) }
+func H_C09T_step_delete6() { vLRUStep(2, 6) }
